@@ -264,13 +264,15 @@ void *SimAlloc::s_alloc(void *opaque, size_t nmemb, size_t size)
 		p = malloc(n ? n : 1);
 		if (!p) { ++self->failures; return nullptr; }
 		// stable, visible garbage for reads of uninitialised memory
-		memset(p, 0xA5, n);
+		memset(p, poison_byte, n);
 	}
 	self->live.insert(p, Blk{ n, self->seq, big });
 	self->cur += n;
 	if (self->cur > self->peak) self->peak = self->cur;
 	return p;
 }
+
+uint8_t SimAlloc::poison_byte = 0xA5;
 
 void SimAlloc::s_free(void *opaque, void *ptr)
 {
